@@ -297,7 +297,7 @@ class Models:
     def _member_of(self, ex, v):
         st = ex.st
         if isinstance(v, DictView):
-            return st.heap[v.ref.id].member
+            return st.heap[v.ref.id].member if v.kind == "keys" else None
         if isinstance(v, Ref):
             o = st.heap[v.id]
             if isinstance(o, (SetObj, DictObj)):
@@ -570,6 +570,12 @@ class Models:
             if o.is_empty_literal:
                 return default
             kt = o.k.embed(st, args[0])
+            if ex.no_fork and default is None:
+                # inside a comprehension element: an optional value instead of a fork
+                ot = o.v if isinstance(o.v, TOpt) else TOpt(o.v)
+                if isinstance(o.v, TOpt):
+                    return SV(z3.If(o.member[kt], o.vals[kt], ot.dt.none), ot)
+                return SV(z3.If(o.member[kt], ot.dt.some(o.vals[kt]), ot.dt.none), ot)
             if st.decide(o.member[kt]):
                 return o.v.project(st, o.vals[kt], (ref, kt, "dict"))
             return default
@@ -1288,8 +1294,14 @@ class Models:
         cond_at = lambda x: z3.substitute(cond, (bi, x))  # noqa: E731
         val_at = lambda x: z3.substitute(e, (bi, x))  # noqa: E731
         st.assume(z3.And(0 <= n, n <= seq.n))
-        st.assume(z3.ForAll([j], z3.Implies(z3.And(0 <= j, j < n), z3.And(0 <= src[j], src[j] < seq.n, cond_at(src[j]), res[j] == val_at(src[j]), dst[src[j]] == j)), patterns=[src[j]]))
-        st.assume(z3.ForAll([i], z3.Implies(z3.And(0 <= i, i < seq.n, cond_at(i)), z3.And(0 <= dst[i], dst[i] < n, src[dst[i]] == i)), patterns=[dst[i]]))
+        st.assume(z3.ForAll([j], z3.Implies(z3.And(0 <= j, j < n), z3.And(0 <= src[j], src[j] < seq.n, cond_at(src[j]), res[j] == val_at(src[j]), dst[src[j]] == j)), patterns=[src[j], res[j]]))
+        vi = val_at(i)
+        extra = [vi] if (z3.is_app(vi) and vi.decl().kind() in (z3.Z3_OP_SELECT, z3.Z3_OP_UNINTERPRETED) and not z3.is_const(vi)) else []
+        try:
+            ax2 = z3.ForAll([i], z3.Implies(z3.And(0 <= i, i < seq.n, cond_at(i)), z3.And(0 <= dst[i], dst[i] < n, src[dst[i]] == i)), patterns=[dst[i]] + extra)
+        except z3.Z3Exception:
+            ax2 = z3.ForAll([i], z3.Implies(z3.And(0 <= i, i < seq.n, cond_at(i)), z3.And(0 <= dst[i], dst[i] < n, src[dst[i]] == i)), patterns=[dst[i]])
+        st.assume(ax2)
         st.assume(z3.ForAll([i, j], z3.Implies(z3.And(0 <= i, i < j, j < n), src[i] < src[j]), patterns=[z3.MultiPattern(src[i], src[j])]))
         if kind == "gen":
             it = IterV(n, lambda x: t.project(st, res[x]))
